@@ -87,3 +87,102 @@ func (f Field) Parity(data []int, r, base int) []int {
 	}
 	return rem
 }
+
+// Solve returns x with A x = b over the field (A is n x n, row-major; ok=false if singular).
+// Plain Gaussian elimination; addition is XOR.
+func (f Field) Solve(A [][]int, b []int) (x []int, ok bool) {
+	n := len(b)
+	m := make([][]int, n)
+	for i := range m {
+		m[i] = append(append([]int{}, A[i]...), b[i])
+	}
+	for c := 0; c < n; c++ {
+		p := -1
+		for r := c; r < n; r++ {
+			if m[r][c] != 0 {
+				p = r
+				break
+			}
+		}
+		if p < 0 {
+			return nil, false
+		}
+		m[c], m[p] = m[p], m[c]
+		inv := f.Inv(m[c][c])
+		for k := c; k <= n; k++ {
+			m[c][k] = f.Mul(m[c][k], inv)
+		}
+		for r := 0; r < n; r++ {
+			if r != c && m[r][c] != 0 {
+				q := m[r][c]
+				for k := c; k <= n; k++ {
+					m[r][k] ^= f.Mul(q, m[c][k])
+				}
+			}
+		}
+	}
+	x = make([]int, n)
+	for i := range x {
+		x[i] = m[i][n]
+	}
+	return x, true
+}
+
+// TailForParity returns the r symbols u such that Parity(prefix || u, r, base) == target: the
+// division register of a systematic encoder is in state target after it has consumed prefix || u.
+// (Parity is linear in the data and the map u -> parity contribution is a bijection.)
+func (f Field) TailForParity(prefix []int, r, base int, target []int) []int {
+	p := len(prefix) + r
+	zero := make([]int, p)
+	copy(zero, prefix)
+	b := f.Parity(zero, r, base)
+	for i := range b {
+		b[i] ^= target[i]
+	}
+	A := make([][]int, r)
+	for i := range A {
+		A[i] = make([]int, r)
+	}
+	for j := 0; j < r; j++ {
+		e := make([]int, p)
+		e[len(prefix)+j] = 1
+		col := f.Parity(e, r, base)
+		for i := 0; i < r; i++ {
+			A[i][j] = col[i]
+		}
+	}
+	u, ok := f.Solve(A, b)
+	if !ok {
+		panic("gf: TailForParity: singular system (cannot happen for a generator with non-zero constant term)")
+	}
+	return u
+}
+
+// KernelErrors returns error magnitudes e (one per locator position, not all zero) such that
+// the syndromes S_i = sum_k e_k * X_k^(i+base), i in rows, all vanish, where X_k = Alpha^(n-1-pos_k)
+// for a word of length n. len(rows) must be len(pos)-1 (the kernel is then one-dimensional for
+// distinct locators); the last magnitude is normalised to 1.
+func (f Field) KernelErrors(n int, pos []int, rows []int, base int) []int {
+	t := len(pos)
+	if len(rows) != t-1 {
+		panic("gf: KernelErrors needs len(rows) == len(pos)-1")
+	}
+	X := make([]int, t)
+	for k, p := range pos {
+		X[k] = f.Pow(Alpha, n-1-p)
+	}
+	A := make([][]int, t-1)
+	b := make([]int, t-1)
+	for i, row := range rows {
+		A[i] = make([]int, t-1)
+		for k := 0; k < t-1; k++ {
+			A[i][k] = f.Pow(X[k], row+base)
+		}
+		b[i] = f.Pow(X[t-1], row+base) // moves the last unknown (fixed to 1) to the right-hand side
+	}
+	e, ok := f.Solve(A, b)
+	if !ok {
+		return nil
+	}
+	return append(e, 1)
+}
